@@ -22,7 +22,7 @@ RULE = ("tempo-style polyco texts written by the workload from generated decimal
         "inside gaps, outside, in UTC/TAI/TT. Non-trivial = a judged in-span evaluation; distinct = (n entries, NCOEFF mod 3, spacing "
         "kind, time kind, method, scalar/array, source).")
 ASSUMPTIONS = [
-    "tolerance 1e-8 cycles for phases (the property's own), relative 1e-9 (+ floor) for frequency derivatives, 1e-8/F0 s for time_at",
+    "tolerance 1e-8 cycles for phases (the property's own), 1e-6 cycles for the recentred phasepol polynomial (no figure given; float64 basis conversion), relative 1e-9 (+ floor) for frequency derivatives, 1e-8/F0 s for time_at",
     "a time within 2 us (float64 MJD used by the entry search) of a boundary between entries may be evaluated from either entry",
     "time_at is only asked to invert phases produced by the predictor itself",
 ]
@@ -262,6 +262,7 @@ class PredictorMonitor:
                     ctx.violation(o, f"phasepol polynomial at 0 is {p0!r}, not in [0, 1)", None, dict(feats, what="pol0"))
                 td, cs = tdays[0], cands[0]
                 ok_any = False
+                bads = []
                 for e in cs:
                     good = True
                     for x in (0.0, 1.0, -1.0, 17.5, -29.25, e.span * 10.0, -e.span * 10.0):
@@ -270,12 +271,20 @@ class PredictorMonitor:
                             continue
                         want = e.phase(td2)
                         got = rv[0] + F(float(pol(x)))
-                        if abs(got - want) > PHASE_TOL * 2:
+                        # the property gives no figure for the recentred polynomial; converting a degree-15 polynomial to a
+                        # shifted power basis in float64 costs precision, so 1e-6 cycles is demanded here (wrong entry / wrong
+                        # shift / lost term show up at >= 1e-3)
+                        if abs(got - want) > PHASE_TOL * 100:
                             good = False
-                            bad = (x, float(got), float(want))
-                    ok_any = ok_any or good
+                            bad_e = (x, float(got), float(want), float(abs(got - want)))
+                    if good:
+                        ok_any = True
+                    else:
+                        bads.append(bad_e)
                 if not ok_any:
-                    ctx.violation(o, f"ref + pol(x) at x={bad[0]} s gives {bad[1]!r}, prediction {bad[2]!r}", None, dict(feats, what="recentred"))
+                    bad = min(bads, key=lambda b: b[3])
+                    ctx.violation(o, f"ref + pol(x) at x={bad[0]} s gives {bad[1]!r}, prediction {bad[2]!r} (error {bad[3]:.3e} cycles)", None,
+                                  dict(feats, what="recentred"))
                 ctx.count("nontrivial[predictor]")
         elif name == "time_at":
             ph = args[1] if len(args) > 1 else kwargs.get("phase")
